@@ -313,6 +313,28 @@ def stop_and_udp(chk: Check, repo: Repo) -> None:
         chk.ob("udp-repetition", f.site(), not problems and n_paths > 0, f"answer_already_arrived={answered}: {n_paths} paths; " + ("; ".join(sorted(set(problems))[:3]) if problems else "<= 4 requests with the unchanged counter, counter +1 (mod 256) exactly on acceptance, otherwise disconnect + CommunicationError"), key=f"udp|{answered}")
 
 
+    # the connection is closed (server DisconnectRequest / lost session: channel cleared, pending future cancelled) while
+    # the first acknowledgement is awaited: the request fails without a repetition on the closed channel
+    def cmu_closed(c, env):
+        if isinstance(c.func, ast.Attribute) and c.func.attr == "request":
+            rv = box["am"].ev(c.func.value, env, {})
+            if isinstance(rv, Obj) and rv.tag == "DeviceConfiguration":
+                env["self.communication_channel"] = None
+                env["#closed"] = True
+                return [Outcome("REQ:noack+closed", Raise("RequestResponseError"))]
+        n = call_name(c)
+        if n == "self._pending.done" or n == "self._pending.cancelled":
+            return [Outcome(None, bool(env.get("#closed")))]
+        return cmu(c, env)
+    am = AbsMachine(cfgu, exc, cmu_closed, enum_hook(repo, f))
+    box["am"] = am
+    env = {"self.communication_channel": 5, "self.sequence_number": SymInt("s", 0, 256), "self._pending": Obj("Future", "f"), "#answered": False}
+    paths = Explorer(cfgu, repo, am.step, const_range_bound(repo, f.module, f.cls), max_steps=600).run(cfgu.entry, [], env)
+    got = {(tuple(t for t in p.env.get("trace", ()) if t.startswith(("REQ:", "DISCONNECT"))), p.end_kind if p.end_kind == "exit" else f"raise {p.env.get('#raised')}", repr(p.env.get("self.sequence_number"))) for p in paths}
+    want = {(("REQ:noack+closed",), "raise CommunicationError", repr(SymInt("s", 0, 256)))}
+    chk.ob("no-repetition-on-a-closed-connection", f.site(), got == want, f"connection closed during the first acknowledgement wait: {sorted(map(str, got))}; reference {sorted(map(str, want))}", key="udp|closed-during-ack-wait" + ("" if got == want else f"|{sorted(map(str, got))[:2]}"))
+
+
 def ack_correlation(chk: Check, repo: Repo) -> None:
     from .c24 import _accept_facts
     cls = repo.cls("xknx.io.request_response.device_configuration", "DeviceConfiguration")
